@@ -90,6 +90,11 @@ def main() -> int:
 				if rc != 0:
 					bad += 1
 					print(f'CLEAN-FAILS {prop} rc={rc}')
+				# on the unchanged tree every modelled idiom is present: nothing may be left unevaluated
+				for l in out.split('\n'):
+					if 'not evaluated:' in l:
+						bad += 1
+						print(f'CLEAN-SKIPS {prop}: {l.strip()[:200]}')
 		shutil.rmtree(clean, ignore_errors=True)
 		ok = 0
 		with cf.ThreadPoolExecutor(args.j) as ex:
